@@ -1290,6 +1290,7 @@ def evaluate(ck, impl, cases, tag="c13"):
     """run the implementation and Coq on (tag, doc) cases; returns per-case
     records, the literals (None outside H_word) and the failing indices"""
     recs, lits = [], []
+    t_impl = time.time()
     for tg, doc in cases:
         obs, detail, bits = observe(impl, doc)
         cmp = comparable(doc)
@@ -1298,9 +1299,11 @@ def evaluate(ck, impl, cases, tag="c13"):
         lits.append("(%s, %s, (%s, %s))" % (g_jv(doc), g_result(obs),
                                           common.g_list([common.g_bool(b) for b in bits]), common.g_bool(cmp))
                     if hw else None)
+    ck.notes.setdefault("timing_s", {})["impl_only"] = round(time.time() - t_impl, 1)
     idx = [i for i, l in enumerate(lits) if l is not None]
     bad, errs = common.coq_failing(tag, HEADER, "jv * result * (list bool * bool)", "case_ok",
-                                   [lits[i] for i in idx], shard=250, timeout=1500)
+                                   [lits[i] for i in idx],
+                                   shard=max(60, min(250, -(-len(idx) // common.NCPU))), timeout=1500)
     bad = [idx[i] for i in bad]
     # outside H_word: the Python-evaluable part of the monitor only
     for i, r in enumerate(recs):
@@ -1366,7 +1369,9 @@ def run(ck):
     from translate import regen
     st = regen.status().get("tdata_enums", {})
     ck.notes["tdata_enums"] = "regenerated" if st.get("ok") else "not-translatable: %s" % st.get("not_translatable")
+    tm = ck.notes.setdefault("timing_s", {})
     ck.build_proofs()
+    tm["build_proofs"] = round(time.time() - t0, 1)
     try:
         impl = Impl()
     except Exception as e:
@@ -1377,7 +1382,9 @@ def run(ck):
     cases = [(t, d) for t, d, _ in corpus if d is not None]
     gen, prios = build_cases(ck, impl, rng, ck.tier)
     cases += gen
+    t1 = time.time()
     recs, lits, bad, errs = evaluate(ck, impl, cases)
+    tm["impl_and_coq_cases"] = round(time.time() - t1, 1)
     hist = collections.Counter()
     outcome = collections.Counter()
     for r in recs:
@@ -1390,7 +1397,10 @@ def run(ck):
         ck.count(to_yaml(r["doc"]), nontrivial=True)
         if r["tag"].startswith(("mut:", "valid")):
             ck.sample({"tag": r["tag"], "yaml": to_yaml(r["doc"])[:600], "impl": r["obs"][0]}, limit=4)
+    t1 = time.time()
     judge(ck, recs, lits, bad, errs)
+    tm["judge"] = round(time.time() - t1, 1)
+    t1 = time.time()
     # the interpreter against jsonschema on random values
     n_int = 400 if ck.tier != "thorough" else 6000
     ic = interp_cases(rng, impl, n_int)
@@ -1404,7 +1414,10 @@ def run(ck):
         ck.mismatch("coqc failed on the interpreter cases", None, e[1])
     for i, p, v, js in ic:
         ck.count(("interp", i, p, to_yaml(v)), nontrivial=True)
+    tm["interp"] = round(time.time() - t1, 1)
+    t1 = time.time()
     check_enums(ck, impl, prios)
+    tm["enums"] = round(time.time() - t1, 1)
     # known-finding witnesses
     for t, d, j in corpus:
         if d is None and "yaml_text" in j:
